@@ -248,3 +248,12 @@ for FullSync<'static, ItemType, OgreAllocatorType, BUFFER_SIZE, MAX_STREAMS> {
         self.streams_manager.name()
     }
 }
+
+#[cfg(feature = "verif")]
+impl<'a, ItemType: Debug + Send + Sync, OgreAllocatorType: BoundedOgreAllocator<ItemType> + crate::verif::VerifState + 'a, const BUFFER_SIZE: usize, const MAX_STREAMS: usize>
+crate::verif::VerifState for FullSync<'a, ItemType, OgreAllocatorType, BUFFER_SIZE, MAX_STREAMS> {
+    fn verif_state(&self, out: &mut Vec<u64>) {
+        self.streams_manager.verif_state(out);
+        self.channel.verif_state(out);
+    }
+}
